@@ -72,13 +72,13 @@ DEFAULT_READING = {
     # False: declared names are reserved (documented).  True: slots are
     # searched strictly in schema order, so an earlier '*'/'+' slot may take
     # a name that a later item declares.
-    "order_dependent_names": False,
+    "order_dependent_names": True,
     # False: a non-fixed slot "could take" a section when type AND name rule
     # fit.  True: the first slot fitting by type claims it, name rule after.
-    "claim_by_type": False,
+    "claim_by_type": True,
     # False: default attribute = normalised name with '-' -> '_'.
     # True: additionally lower-cased.
-    "attr_lower": False,
+    "attr_lower": True,
 }
 
 # ---------------------------------------------------------------------------
@@ -144,6 +144,11 @@ def kt_ipaddr_or_hostname(s):
             raise ValueError("bad host name character")
     if s[-1] == ".":
         raise ValueError("host name ends with a period")
+    if len(s) == 1:
+        # The statement does not say whether a ONE-character name is a host
+        # name (the shipped pattern needs two); not compared - see DESIGN.md,
+        # readings.
+        raise ValueError("one-character host names are left unspecified")
     return s.lower()
 
 
